@@ -23,7 +23,7 @@ def srcSamplesCount (dst : Shape) : Nat := (roiBoundary (⟨0, dst.1⟩, ⟨0, d
 def fmtPlan (p : Plan) : String :=
   s!"{fmtROI p.roiSrc} {fmtROI p.roiDst} {fmtBool p.pasteOk} {p.readShrink} {fmtRat p.scale} {fmtRat p.scale2.1} {fmtRat p.scale2.2}"
 
-def run (args : List String) : Option String :=
+partial def run (args : List String) : Option String :=
   match args with
   | ["axis", ns, nd, s, t] => do
     let ns ← parseInt? ns; let nd ← parseInt? nd; let s ← parseRat? s; let t ← parseRat? t
@@ -74,6 +74,40 @@ def run (args : List String) : Option String :=
       | .ok A =>
         let r := relativeRois (sny, snx) (dny, dnx) (linTr A) (linTr fwd) pps pad al
         pure s!"{fmtROI r.1} {fmtROI r.2}"
+  | ["stencil", x0, y0, r, pts, "far"] => do
+    -- as below, linear part only
+    match run ["stencil", x0, y0, r, pts] with
+    | some out => pure ((out.splitOn " ").headD "" ++ " far")
+    | none => none
+  | ["stencil", x0, y0, r, pts] => do
+    -- affine_from_pts on the 5-point stencil; `pts` are the five images `x;y` in the order of the code
+    let x0 ← parseRat? x0; let y0 ← parseRat? y0; let r ← parseRat? r
+    let ys ← parseList? (fun (t : String) => match t.splitOn ";" with
+      | [a, b] => do let a ← parseRat? a; let b ← parseRat? b; pure (a, b)
+      | _ => none) pts
+    match ys with
+    | [p0, p1, p2, p3, p4] =>
+      let tbl : Rat × Rat → Rat × Rat := fun q =>
+        if q = (x0, y0) then p0 else if q = (x0 - r, y0) then p1 else if q = (x0, y0 - r) then p2
+        else if q = (x0 + r, y0) then p3 else p4
+      let f := stencilAffine tbl (x0, y0) r
+      -- linear part first (what the scale is computed from), then the offsets
+      pure s!"{fmtRat f.a};{fmtRat f.b};{fmtRat f.d};{fmtRat f.e} {fmtRat f.c};{fmtRat f.f}"
+    | _ => none
+  | ["nlplan", sny, snx, dny, dnx, a, pad, al] => do
+    -- the cross-CRS branch driven by an AFFINE map that is presented to the planner as non-linear (`.linear is None`)
+    let sny ← parseInt? sny; let snx ← parseInt? snx; let dny ← parseInt? dny; let dnx ← parseInt? dnx
+    let a ← parseAff? a
+    let pad ← parseOpt? parseInt? pad; let al ← parseOpt? parseInt? al
+    match a.inv? with
+    | .error e => pure e.toStr
+    | .ok fwd =>
+      match rootOf a with
+      | none => pure "irr"
+      | some n =>
+        let r := reprojectNonlinear (sny, snx) (dny, dnx) (linTr a) (linTr fwd)
+          (fun c => scaleAtPoint a.apply c 1 n) pad al
+        pure (fmtRes (fun p => s!"{fmtROI p.roiSrc} {fmtROI p.roiDst} {fmtBool p.pasteOk} {p.readShrink}") r)
   | ["nlsamples", dny, dnx] => do
     -- number of boundary samples the cross-CRS branch (`pts_per_side = 5`) hands to `roi_from_points`
     let dny ← parseInt? dny; let dnx ← parseInt? dnx
